@@ -65,6 +65,12 @@ impl WorkerReport {
         }
     }
     pub fn merge(&mut self, o: WorkerReport) {
+        // a worker that judged nothing and only reported that it could not: its whole slice of the
+        // space went unobserved
+        if o.evaluations == 0 && o.inconclusive > 0 && o.violations.is_empty() {
+            *self.counters.entry("workers_that_observed_nothing".to_string()).or_insert(0) += 1;
+        }
+        *self.counters.entry("workers_merged".to_string()).or_insert(0) += 1;
         self.evaluations += o.evaluations;
         self.nontrivial.extend(o.nontrivial);
         for s in o.samples {
@@ -203,7 +209,11 @@ pub fn finish(spec: &Spec, tier: &str, seed: u64, wall_s: f64, rep: &WorkerRepor
     let evpath = evdir.join(format!("{}.json", spec.prop));
     // "held on what was observed" needs observations: a run in which more cases could not be judged
     // than were judged is inconclusive as a whole
-    let observed_enough = rep.evaluations >= 1 && distinct >= spec.min_nontrivial.max(2) && rep.inconclusive * 2 <= rep.evaluations;
+    // ... and so is a run in which a tenth or more of the workers observed nothing at all (their slice of
+    // the space - a header variant, a network, a crash class - is missing from "held")
+    let blind = rep.counters.get("workers_that_observed_nothing").copied().unwrap_or(0);
+    let merged = rep.counters.get("workers_merged").copied().unwrap_or(0);
+    let observed_enough = rep.evaluations >= 1 && distinct >= spec.min_nontrivial.max(2) && rep.inconclusive * 2 <= rep.evaluations && blind * 10 < merged.max(1);
     if !fresh.is_empty() {
         let _ = std::fs::write(&evpath, serde_json::to_string_pretty(&ev).unwrap());
         println!("RESULT property={} verdict=violated evaluations={} distinct_nontrivial={} wall_s={:.1}", spec.prop, rep.evaluations, distinct, wall_s);
